@@ -2,6 +2,7 @@ package main
 
 import (
 	"fmt"
+	"go/constant"
 	"go/types"
 	"sort"
 	"strings"
@@ -313,6 +314,7 @@ func ruleLDR16(c *Ctx) {
 			}
 		}
 	}
+	ldr16TwoStage(c)
 }
 
 // snapshotCacheKinds finds the node kinds whose GetSnapshot returns a remembered text first and checks that the text is
@@ -633,4 +635,245 @@ func childDerefSites(fn *ssa.Function, isNodePtr func(types.Type) bool) []childD
 		}
 	}
 	return out
+}
+
+// ldr16TwoStage (D38): ANTLR's full LL prediction on the ambiguous `variable` rule of the grammar costs minutes on a
+// long member or selector chain (a.b.b.b… of 4 KB: 75 s), its SLL prediction a second, and a text SLL accepts has the
+// same parse tree under LL. The builder therefore parses with SLL first and again with LL only when SLL reported an
+// error. Decided: every parse (call of the start rule Grl) is preceded by SetPredictionMode on the same parser; the
+// modes, read from the constants the argument ranges over (or from the constant arguments in source order), start with
+// PredictionModeSLL; a further parse is reached only over the `errors recorded` edge of a look at the reporter; and
+// the reporter is emptied before every parse, so that what SLL reported does not reject a text LL accepts.
+func ldr16TwoStage(c *Ctx) {
+	p := c.P
+	fn := p.Method("builder", "RuleBuilder", "BuildRuleFromResource")
+	hasErr := p.Method("pkg", "GruleErrorReporter", "HasError")
+	errorsF := p.Field("pkg", "GruleErrorReporter", "Errors")
+	if fn == nil || hasErr == nil || errorsF == nil {
+		c.AnchorLost("BuildRuleFromResource / GruleErrorReporter")
+		return
+	}
+	construct := "BuildRuleFromResource / SLL prediction first, full LL only for a text SLL rejected"
+	sll, ll := int64(-1), int64(-1)
+	if ap := p.ByPath["github.com/antlr4-go/antlr/v4"]; ap != nil {
+		for name, dst := range map[string]*int64{"PredictionModeSLL": &sll, "PredictionModeLL": &ll} {
+			if k, ok := ap.Types.Scope().Lookup(name).(*types.Const); ok {
+				if v, exact := constantInt64(k); exact {
+					*dst = v
+				}
+			}
+		}
+	}
+	if sll < 0 || ll < 0 {
+		c.AnchorLost("antlr.PredictionModeSLL / PredictionModeLL")
+		return
+	}
+	var parses, modes []ssa.CallInstruction
+	for _, ci := range callsIn(fn) {
+		switch {
+		case calleeNameIs(ci, "Grl") && strings.Contains(calleeName(ci), "grulev3Parser"):
+			parses = append(parses, ci)
+		case calleeNameIs(ci, "SetPredictionMode"):
+			modes = append(modes, ci)
+		}
+	}
+	if len(parses) == 0 {
+		c.AnchorLost("call of the start rule Grl() in BuildRuleFromResource")
+		return
+	}
+	// the sequence of modes
+	var seq []int64
+	for _, m := range modes {
+		arg := m.Common().Args[len(m.Common().Args)-1]
+		if k, ok := constInt(arg); ok {
+			seq = append(seq, k)
+			continue
+		}
+		// an element of a slice literal of constants that a loop ranges over
+		if vals := rangedConstants(arg); vals != nil {
+			seq = append(seq, vals...)
+			continue
+		}
+		seq = append(seq, -2)
+	}
+	bad := ""
+	if len(modes) == 0 {
+		bad = "the parser runs in its default mode, full LL prediction, on every text: a rule whose condition is a member or selector chain of 4 KB (a.b.b.b…) takes 75 s to parse, 8 KB five minutes, where SLL prediction takes a second and yields the same tree for every text it accepts"
+	} else if seq[0] != sll {
+		bad = fmt.Sprintf("the first prediction mode is %d, not PredictionModeSLL (%d): every text pays for full LL prediction", seq[0], sll)
+	}
+	inLoop := func(ci ssa.CallInstruction) *Loop {
+		return innermostLoopOf(naturalLoops(fn), ci.(ssa.Instruction).Block())
+	}
+	for _, ps := range parses {
+		if bad != "" {
+			break
+		}
+		in := ps.(ssa.Instruction)
+		// a mode is set on this parser before it parses
+		set := false
+		for _, m := range modes {
+			mi := m.(ssa.Instruction)
+			if (mi.Block() == in.Block() && instrIndex(mi) < instrIndex(in)) || (mi.Block() != in.Block() && mi.Block().Dominates(in.Block())) {
+				set = true
+			}
+		}
+		if !set {
+			bad = "a parse at " + p.InstrPos(in) + " is not preceded by SetPredictionMode"
+			break
+		}
+		// the reporter is emptied between the start of the function (or the previous parse) and this parse
+		isReset := func(x ssa.Instruction) bool {
+			f, _, val := fieldStore(x)
+			if f != errorsF {
+				return false
+			}
+			switch v := val.(type) {
+			case *ssa.Slice:
+				if a, ok := v.X.(*ssa.Alloc); ok {
+					if at, ok := a.Type().Underlying().(*types.Pointer); ok {
+						if arr, ok := at.Elem().Underlying().(*types.Array); ok && arr.Len() == 0 {
+							return true
+						}
+					}
+				}
+				if k, ok := constInt(v.High); ok && k == 0 {
+					return true
+				}
+			case *ssa.MakeSlice:
+				if k, ok := constInt(v.Len); ok && k == 0 {
+					return true
+				}
+			case *ssa.Const:
+				return v.IsNil()
+			}
+			return false
+		}
+		if l := inLoop(ps); l != nil {
+			// per iteration: from the loop header to the parse, a reset is passed
+			if t, _ := reach(fn, l.Header.Instrs[len(l.Header.Instrs)-1], func(x ssa.Instruction) bool { return x == in }, isReset, func(b *ssa.BasicBlock, si int) bool { return l.Blocks[b.Succs[si]] }); t != nil {
+				bad = "the reporter is not emptied before the parse at " + p.InstrPos(in) + " on every round: an error SLL prediction reported stays in the reporter and rejects a text that full LL accepts"
+			}
+			// a further round only over the `errors recorded` edge: the loop head is not reached again from the parse without it
+			guard := func(b *ssa.BasicBlock, si int) bool {
+				iff, isIf := b.Instrs[len(b.Instrs)-1].(*ssa.If)
+				if !isIf {
+					return false
+				}
+				kind, sTrue, okc := condOn(iff.Cond, func(v ssa.Value) bool {
+					call, isCall := v.(*ssa.Call)
+					return isCall && matchStatic(hasErr)(call)
+				})
+				return okc && kind == "bool" && si == sTrue
+			}
+			if t, _ := reach(fn, in, func(x ssa.Instruction) bool { return x.Block() == l.Header && instrIndex(x) == 0 }, nil, func(b *ssa.BasicBlock, si int) bool { return !guard(b, si) }); t != nil {
+				bad = "the text is parsed again although the parse before reported no error (the loop head is reached again from the parse at " + p.InstrPos(in) + " without the `errors recorded` edge of HasError())"
+			}
+		}
+	}
+	if bad == "" && len(parses) > 1 {
+		// straight-line form: a later parse is dominated by the `errors recorded` edge of a look at the reporter after the earlier one
+		for i := 1; i < len(parses); i++ {
+			in := parses[i].(ssa.Instruction)
+			if !edgesDominate(fn, in, func(b *ssa.BasicBlock, si int) bool {
+				iff, isIf := b.Instrs[len(b.Instrs)-1].(*ssa.If)
+				if !isIf {
+					return false
+				}
+				kind, sTrue, okc := condOn(iff.Cond, func(v ssa.Value) bool {
+					call, isCall := v.(*ssa.Call)
+					return isCall && matchStatic(hasErr)(call)
+				})
+				return okc && kind == "bool" && si == sTrue
+			}) {
+				bad = "the parse at " + p.InstrPos(in) + " is reached without an error from the earlier parse"
+			}
+		}
+	}
+	detail := fmt.Sprintf("%d parse site(s), modes %v (SLL=%d, LL=%d)", len(parses), seq, sll, ll)
+	c.Check(bad == "", construct, p.InstrPos(parses[0].(ssa.Instruction)), detail, bad)
+	// what remains: a text that SLL rejects is parsed in LL mode
+	usesLL := false
+	for _, k := range seq {
+		if k != sll {
+			usesLL = true
+		}
+	}
+	if len(modes) == 0 {
+		usesLL = true
+	}
+	c.Check(!usesLL, "BuildRuleFromResource / no text is parsed with full LL prediction", p.InstrPos(parses[0].(ssa.Instruction)), "SLL only", "a text that SLL prediction rejects is parsed again in LL mode, whose full-context prediction on the ambiguous `variable` rule of the grammar is quadratic with a large constant: `rule R { when a.b.b…b == 1 then Complete(); } }` with 2000 members and the stray brace (4 KB) takes 75 s, 8 KB five minutes")
+}
+
+// rangedConstants: v is the element variable of a `for range` over a slice literal of integer constants; returns them in order.
+func rangedConstants(v ssa.Value) []int64 {
+	v = unspill(v)
+	ld, ok := v.(*ssa.UnOp)
+	if !ok {
+		return nil
+	}
+	ia, ok := ld.X.(*ssa.IndexAddr)
+	if !ok {
+		return nil
+	}
+	var arr *ssa.Alloc
+	switch x := ia.X.(type) {
+	case *ssa.Alloc:
+		arr = x
+	case *ssa.Slice:
+		arr, _ = x.X.(*ssa.Alloc)
+	}
+	if arr == nil || arr.Referrers() == nil {
+		return nil
+	}
+	vals := map[int64]int64{}
+	for _, r := range *arr.Referrers() {
+		ea, ok := r.(*ssa.IndexAddr)
+		if !ok || ea.Referrers() == nil {
+			continue
+		}
+		idx, isK := constInt(ea.Index)
+		if !isK {
+			continue
+		}
+		for _, rr := range *ea.Referrers() {
+			if st, ok := rr.(*ssa.Store); ok && st.Addr == ssa.Value(ea) {
+				k, isK := constInt(st.Val)
+				if !isK {
+					return nil
+				}
+				vals[idx] = k
+			}
+		}
+	}
+	if len(vals) == 0 {
+		return nil
+	}
+	out := make([]int64, len(vals))
+	for i := range out {
+		k, ok := vals[int64(i)]
+		if !ok {
+			return nil
+		}
+		out[i] = k
+	}
+	return out
+}
+
+func constantInt64(k *types.Const) (int64, bool) {
+	return constantToInt64(k.Val())
+}
+
+// edgesDominateFrom: every path from instruction `from` to block `to` passes one of the guard edges.
+func edgesDominateFrom(fn *ssa.Function, from ssa.Instruction, to *ssa.BasicBlock, isGuardEdge func(b *ssa.BasicBlock, succIdx int) bool) bool {
+	if len(to.Instrs) == 0 {
+		return true
+	}
+	last := to.Instrs[len(to.Instrs)-1]
+	t, _ := reach(fn, from, func(in ssa.Instruction) bool { return in == last }, nil, func(b *ssa.BasicBlock, si int) bool { return !isGuardEdge(b, si) })
+	return t == nil
+}
+
+func constantToInt64(v constant.Value) (int64, bool) {
+	return constant.Int64Val(constant.ToInt(v))
 }
